@@ -398,6 +398,9 @@ func runC09(c *Ctx) {
 				return false
 			}}, 1)
 			c.NoReach("R09.6", "a skipped job never takes a backoff interval", body, p.EdgeSuccs(body, skipped), 1, gb, CutSpec{})
+			// the other direction of "cleared on skip": once the job is known to be skipped, it does not end with the
+			// grown interval of earlier failures still in the table (fail, fail, skip, fail would wait for the third interval)
+			c.NoReach("R09.6", "a skipped job never ends without clearing its backoff", body, p.EdgeSuccs(body, skipped), 1, IsReturn, CutSpec{Nodes: cb})
 		}
 	}
 
